@@ -92,7 +92,13 @@ def py_stmt(n: ast.AST):
 		if n.orelse:
 			raise Unsupported('for-else')
 		t = n.target
-		names = [t.id] if isinstance(t, ast.Name) else [e.id for e in t.elts]
+		if isinstance(t, ast.Name):
+			names = [t.id]
+		elif isinstance(t, (ast.Tuple, ast.List)) and all(isinstance(e, ast.Name) for e in t.elts):
+			names = [e.id for e in t.elts]
+		else:
+			# `for a.b in ...`, `for a[0] in ...`, nested targets: valid Python that the grammar under test does not derive
+			raise Unsupported('for target other than names')
 		return ('for', names, py_expr(n.iter), [py_stmt(s) for s in n.body])
 	if isinstance(n, ast.While):
 		if n.orelse:
